@@ -450,12 +450,14 @@ void M17Demodulator<FloatType>::do_stream_sync()
     else if (sync_count > MAX_SYNC_COUNT)
     {
         // update_values(sync_index);
-        if (viterbi_cost < STREAM_COST_LIMIT)
+        if (viterbi_cost < STREAM_COST_LIMIT && missing_sync_count < MAX_MISSING_SYNC)
         {
             // Sync word missed but we are still decoding a stream reasonably
-            // well. Don't increment the missing sync count, but it must not
-            // be 0 when a sync word is missed for clock recovery to work. 
-            if (!missing_sync_count) missing_sync_count = 1;
+            // well. Keep going, but count the miss: frames that are not
+            // aligned with the transmission can also decode below the cost
+            // limit, and without a bound the demodulator would coast on
+            // them for ever instead of searching for the sync word again.
+            missing_sync_count += 1;
             sync_word_type = M17FrameDecoder::SyncWordType::STREAM;
             demodState = DemodState::FRAME;
         }
